@@ -29,6 +29,9 @@ def run(ctx, res):
     bitio.rule_signsem(prog, res)
     bitio.rule_r_width(prog, res)
     bitio.rule_r_kind(prog, res)
+    # "a read past the end reports BufferOverflow and changes neither buffer nor cursor" is decided for parse / put / consume_bits; it holds for the
+    # transport only if nothing else moves a cursor or reads the buffer behind the parser's back (S137: a new Parser::take_bytes with a mis-scaled guard)
+    bitio.rule_p_pre(prog, engine.Filtered(res, {"P-pre"}, key_contains={"P-pre": ("cursor stores",)}))
     # the reviewed lower bound of the MSM cell-mask width relies on the MSM guards
     import msm, panics
     msm.rule_guards(prog, engine.Filtered(res, {"M-guards"}))
